@@ -27,7 +27,8 @@ def run(chk):
     jobs = []
     for i, g in enumerate(groups):
         trace = vlib.workfile('c18_%d.ndjson' % i)
-        rc, out = vlib.run_drv(exe, ['stream', '--out', trace, '--seed', chk.seed + i, '--configs', ';'.join(g), '--windows', windows])
+        rc, out = vlib.run_drv(exe, ['stream', '--out', trace, '--seed', chk.seed + i, '--configs', ';'.join(g), '--windows', windows]
+                               + (['--bigwin'] if i == len(groups) - 1 else []))      # the last trace also carries the long / all-lengths windows
         if rc != 0:
             raise vlib.ToolError('stream driver failed: ' + out[-300:])
         jobs.append(trace)
